@@ -232,7 +232,36 @@ class Mem:
                             out[k] = sub[k]
                     need = 0
                 elif not e.decide(outside):
-                    raise symx.Truncated()  # read straddles the end of a block copy
+                    # the read straddles an end of the block copy: the cells still missing (typically padding the
+                    # writers never touch) are resolved in runs, halving a run until it lies inside or outside
+                    runs = []
+                    k = 0
+                    while k < n:
+                        if out[k] is None:
+                            k1 = k
+                            while k1 < n and out[k1] is None:
+                                k1 += 1
+                            runs.append((k, k1))
+                            k = k1
+                        else:
+                            k += 1
+                    budget = [256]
+                    while runs:
+                        k0, k1 = runs.pop()
+                        budget[0] -= 1
+                        if budget[0] < 0:
+                            raise symx.Truncated()
+                        a0, ln0 = addr + k0, k1 - k0
+                        if e.decide(z3.And(a0 >= dst, a0 + ln0 <= dst + ln)):
+                            sub = smem.read(saddr + (a0 - dst), ln0)
+                            for j in range(ln0):
+                                out[k0 + j] = sub[j]
+                        elif e.decide(z3.Or(a0 + ln0 <= dst, a0 >= dst + ln)):
+                            continue  # stays missing: earlier records / background
+                        else:
+                            mid = (k0 + k1) // 2
+                            runs += [(k0, mid), (mid, k1)]
+                    need = sum(1 for x in out if x is None)
             if need == 0:
                 return out
         for k in range(n):
@@ -267,6 +296,39 @@ class SymCtx:
 
     def __repr__(self):
         return f"<SymCtx {self.name}>"
+
+
+class WBArray(np.ndarray):
+    """what to_nplike() of a symbolic buffer hands out: an ndarray that ALIASES the buffer bytes it covers, as the
+    real typed views do -- every element assignment through it (or through a view/transposition/slice of it) is
+    written back to the write-log"""
+
+    _wb = None
+
+    def __array_finalize__(self, obj):
+        self._wb = None
+
+    def _root(self):
+        a = self
+        while a is not None:
+            if getattr(a, "_wb", None) is not None:
+                return a
+            a = getattr(a, "base", None)
+        return None
+
+    def __setitem__(self, key, value):
+        np.ndarray.__setitem__(self, key, value)
+        r = self._root()
+        if r is not None:
+            buf, off, dtype = r._wb
+            flat = np.asarray(r).reshape(-1)
+            if flat.dtype == object:
+                cells = []
+                for x in flat:
+                    cells += word_cells(x, dtype.itemsize) if isinstance(x, SymInt) else list(np.array(x).astype(dtype).tobytes())
+                buf.buffer.store(off, cells)
+            else:
+                buf.buffer.store(off, list(flat.astype(dtype).tobytes()))
 
 
 _classes = {}
@@ -369,8 +431,11 @@ def make_symbuffer(kind):
                 arr = np.empty(count, dtype=object)
                 for k, v in enumerate(vals):
                     arr[k] = v
-                return arr.reshape(*shape)
-            return np.frombuffer(bytes(render(cells)), dtype=dtype).reshape(*shape)
+                out = arr.reshape(*shape).view(WBArray)
+            else:
+                out = np.frombuffer(bytearray(render(cells)), dtype=dtype).reshape(*shape).view(WBArray)
+            out._wb = (self, offset, dtype)
+            return out
 
         to_nparray = to_nplike
 
